@@ -176,7 +176,11 @@ def derive(fi: FuncInfo, expr: ast.AST, sources: Iterable[str], passthrough: Opt
         raise AnalysisError("x_exact: unmodelled expression %s on a byte-exact path in %s" % (q.unparse(e), fi.qualname))
 
     def go_iter(it: ast.AST):
-        # element of an iterable: X.split(delim) -> X ; a local list -> its elements
+        # element of an iterable: X.split(delim) -> X ; a local list -> its elements ; filter(pred, X) -> elements of X
+        if isinstance(it, ast.Call) and q.dotted(it.func) == "filter" and len(it.args) == 2:
+            steps.append(Step("element", it, "filtered subset"))
+            go_iter(it.args[1])
+            return
         if isinstance(it, ast.Call) and isinstance(it.func, ast.Attribute) and it.func.attr in ("split", "rsplit") and it.args:
             if len(it.args) > 1 or it.keywords:
                 steps.append(Step("lossy", it, "split bounded by maxsplit (the last piece still contains delimiters and the pieces after them)"))
